@@ -450,3 +450,12 @@ func VerifStreamLifecycle(steps string, settle time.Duration) []string {
 	}
 	return out
 }
+
+// VerifIsWebRequest exposes isWebRequest for a Content-Type and a method.
+func VerifIsWebRequest(contentType, method string) (typ string, enc string, ok bool) {
+	r := &http.Request{Method: method, Header: http.Header{}}
+	if contentType != "" {
+		r.Header.Set("Content-Type", contentType)
+	}
+	return isWebRequest(r)
+}
